@@ -528,6 +528,14 @@ mod verif_bounded {
             expect(label, scen, "owner of n2 afterwards", name, st.owner_(2), Some("g1".to_string()));
             expect(label, scen, "g1 afterwards", name, st.group_(1), Some(group(1, 2)));
             expect(label, scen, "g2 afterwards", name, st.group_(2), Some(group(2, 1)));
+            // a refused rollback consumes nothing: the snapshot is still there and works once the id is free again
+            expect(label, scen, "snapshot names of g1 after the REFUSED rollback", name, st.names_(1), vec!["S".to_string()]);
+            st.put_group_(group(2, 3));
+            let scen2 = "... ; g2 moves on to n3 ; rollback of g1 to S again";
+            expect(label, scen2, "rollback accepted?", name, st.rollback_(1, "S"), true);
+            expect(label, scen2, "g1 afterwards (restored)", name, st.group_(1), Some(group(1, 1)));
+            expect(label, scen2, "owner of n1 afterwards", name, st.owner_(1), Some("g1".to_string()));
+            expect(label, scen2, "snapshot names of g1 afterwards (consumed)", name, st.names_(1), Vec::<String>::new());
         }
     }
     // C11 / C09 / C06 "rollback is all-or-nothing": a rollback whose restore FAILS inside its transaction (the snapshot carries a Nostr group
